@@ -13,6 +13,9 @@ from impl import trees, transform, treeinput, treeoutput, grammar, grammaroutput
 import gram  # noqa: E402
 
 
+SHARED = {}
+
+
 def run(call, scratch):
     op = call["op"]
     try:
@@ -58,7 +61,11 @@ def run(call, scratch):
                 if call.get("mode") and call["mode"] != "treebank":
                     args = {"reordering": grammar.reordering_optimal if call["mode"] == "optimal" else grammar.reordering_none}
                     if call.get("markov"):
-                        args["markov_opts"] = call["markov"]
+                        # "markov_key": the caller passes the SAME options object to every call of that key
+                        key = call.get("markov_key")
+                        if key:
+                            key = key + json.dumps(call["markov"], sort_keys=True)   # same object only for equal settings
+                        args["markov_opts"] = SHARED.setdefault(key, dict(call["markov"])) if key else call["markov"]
                     g = grammar.binarize(g, **args)
                 dest = os.path.join(scratch, "g")
                 out = []
